@@ -10,10 +10,17 @@
 From FluentV Require Import Base.Bytes Base.Outcome Base.Utf8 Base.Utf8Facts.
 From FluentV Require Import Syntax.Ast Syntax.ParserModel Syntax.SerializerModel Syntax.Render Syntax.TreeNorm.
 From FluentV Require Import Syntax.ParseLemmas Syntax.SerializerProofs Syntax.RoundTrip Syntax.SerializerRoundTrip.
-From FluentV Require Import Syntax.EntryLoop Syntax.RoundTripML Syntax.SerializerLoop.
+From FluentV Require Import Syntax.EntryLoop Syntax.RoundTripML Syntax.RoundTripSel Syntax.SerializerLoop.
 From Coq Require Import Lia.
 
 Arguments N.eqb : simpl never.
+
+(* the classes of RoundTripML.v at depth 0: placeables hold a simple inline expression *)
+Local Notation ml_pattern := (RoundTripML.ml_pattern eok0).
+Local Notation ml_elements := (RoundTripML.ml_elements eok0).
+Local Notation ml_line_layout := (RoundTripML.ml_line_layout etext0).
+Local Notation ml_value_layout := (RoundTripML.ml_value_layout etext0).
+Local Notation ml_resource := (RoundTripML.ml_resource eok0).
 
 (* ---------------------------------------------------------------------------------------------- *)
 (* 1. The canonical text of a (joined) pattern at indentation B: every line after a line break is    *)
@@ -54,16 +61,16 @@ Qed.
 Lemma jtext_layout B els : forall prev, ml_elements els prev = true -> ml_line_layout B els (jtext B els).
 Proof.
   induction els as [|el r IH]; intros prev Hs; [constructor|].
-  destruct el as [v | [sel vs | i]]; cbn [ml_elements] in Hs; try discriminate Hs; cbn [jtext].
+  destruct el as [v | [sel vs | i]]; cbn [RoundTripML.ml_elements eok0] in Hs; try discriminate Hs; cbn [jtext].
   - apply andb_prop in Hs as [Hs Hr]. apply andb_prop in Hs as [_ Hv].
     unfold ml_text in Hv. unfold ltext. destruct (lines_of v) as [|l0 rest] eqn:El; [discriminate Hv|].
     apply andb_prop in Hv as [_ Hrest]. rewrite <- app_assoc.
-    apply (mll_text B v l0 rest r _ _ El); [apply cont_text_layout, Hrest | apply (IH true Hr)].
-  - apply andb_prop in Hs as [_ Hr].
+    apply (mll_text etext0 B v l0 rest r _ _ El); [apply cont_text_layout, Hrest | apply (IH true Hr)].
+  - apply andb_prop in Hs as [Hi Hr].
     change ([123; 32]%N ++ inline_text i ++ [32; 125]%N ++ jtext B r)
       with (123%N :: sp 1 ++ inline_text i ++ [32; 125]%N ++ jtext B r).
     replace (inline_text i ++ [32; 125]%N ++ jtext B r) with (inline_text i ++ sp 1 ++ 125%N :: jtext B r) by reflexivity.
-    constructor; [apply all_blank_sp | apply all_blank_sp | apply (IH false Hr)].
+    constructor; [apply all_blank_sp | apply all_blank_sp | constructor; exact Hi | apply (IH false Hr)].
 Qed.
 
 (* ---- lines of a concatenation ---- *)
@@ -358,22 +365,50 @@ Proof.
   - apply andb_prop in Hs as [_ Hr]. destruct Hin as [E | Hin]; [discriminate E | apply (IH false Hr v Hin)].
 Qed.
 
+(* an expression that joins to a simple inline expression is that expression *)
+Lemma join_expr_simple_inv e i0 : join_expr e = Inline i0 -> simple_inline i0 = true -> e = Inline i0.
+Proof.
+  destruct e as [sel vs | i]; [discriminate|]. change (join_expr (Inline i)) with (Inline (join_inline i)).
+  intros E Hi. injection E as E. f_equal.
+  destruct i as [s | v | id args | id att | id att args | id | e]; cbn [join_inline] in E; subst i0; try reflexivity;
+    try discriminate Hi.
+  cbn [simple_inline] in Hi. destruct att; [discriminate Hi|]. destruct args; [discriminate Hi | reflexivity].
+Qed.
+
+(* elements with the stream of a pattern of the fragment, one text element per line, are split elements *)
+Lemma split_of_stream els J : ml_elements J false = true -> stream els = stream J -> Forall text_ok els ->
+  Forall split_el els.
+Proof.
+  intros Hs Hst Hok. rewrite Forall_forall in *. intros el Hel. specialize (Hok el Hel).
+  destruct el as [v | e]; cbn [split_el].
+  - destruct Hok as [Hne Hlf]. split; [exact Hne | split; [exact Hlf|]].
+    apply not_true_is_false. intros Hex. apply existsb_exists in Hex as (b & Hb & E). apply N.eqb_eq in E. subst b.
+    assert (Hin : In (inl 13%N) (stream J)) by (rewrite <- Hst; apply text_in_stream; eauto).
+    apply text_in_stream in Hin as (w & Hw & Hbw).
+    destruct (ml_elements_texts _ false Hs w Hw) as [c Hc]. pose proof (ml_text_in c w 13%N Hc Hbw) as H13. discriminate H13.
+  - assert (Hin : In (inr (join_expr e)) (stream J)).
+    { rewrite <- Hst. apply placeable_in_stream. exists e. auto. }
+    apply placeable_in_stream in Hin as (e0 & He0 & Ej).
+    pose proof (ml_elements_placeables eok0 J false Hs e0 He0) as Hk.
+    destruct e0 as [sel vs | i0]; [discriminate Hk|]. cbn [eok0] in Hk.
+    change (join_expr (Inline i0)) with (Inline (join_inline i0)) in Ej. rewrite (simple_inline_join i0 Hk) in Ej.
+    rewrite (join_expr_simple_inv e i0 (eq_sym Ej) Hk). exact Hk.
+Qed.
+
+Lemma split_join_map els : Forall split_el els -> join_els_map els = els.
+Proof.
+  intros Hall. apply join_els_map_id. intros e He.
+  rewrite Forall_forall in Hall. specialize (Hall _ He). cbn [split_el] in Hall. destruct e as [sel vs | i]; [contradiction|].
+  change (join_expr (Inline i)) with (Inline (join_inline i)). rewrite (simple_inline_join i Hall). reflexivity.
+Qed.
+
 Lemma sml_pok_parts els : sml_pok els = true ->
   ml_pattern (Pattern (join_elements els)) = true /\ Forall text_ok els /\ Forall split_el els.
 Proof.
   unfold sml_pok. intros H. apply andb_prop in H as [Hp Hok]. apply forallb_text_okb in Hok.
   split; [exact Hp | split; [exact Hok|]].
-  destruct (ml_pattern_parts _ Hp) as (_ & Hs & _).
-  rewrite Forall_forall in *. intros el Hel. specialize (Hok el Hel).
-  destruct el as [v | e]; cbn [split_el].
-  - destruct Hok as [Hne Hlf]. split; [exact Hne | split; [exact Hlf|]].
-    apply not_true_is_false. intros Hex. apply existsb_exists in Hex as (b & Hb & E). apply N.eqb_eq in E. subst b.
-    assert (Hst : In (inl 13%N) (stream (join_elements els))) by (rewrite stream_join; apply text_in_stream; eauto).
-    apply text_in_stream in Hst as (w & Hw & Hbw).
-    destruct (ml_elements_texts _ false Hs w Hw) as [c Hc]. pose proof (ml_text_in c w 13%N Hc Hbw) as H13. discriminate H13.
-  - assert (Hst : In (PlaceableElement e) (join_elements els)).
-    { apply placeable_in_stream. rewrite stream_join. apply placeable_in_stream. exact Hel. }
-    destruct (ml_elements_placeables _ false Hs e Hst) as (i & -> & Hi). exact Hi.
+  destruct (ml_pattern_parts eok0 _ Hp) as (_ & Hs & _).
+  apply (split_of_stream els (join_elements els) Hs (eq_sym (stream_join els)) Hok).
 Qed.
 
 (* ---- the last element ---- *)
@@ -420,7 +455,7 @@ Qed.
 
 Lemma sml_pok_final els : sml_pok els = true -> els <> [] /\ no_final_lf els.
 Proof.
-  intros H. destruct (sml_pok_parts els H) as (Hp & Hok & _). destruct (ml_pattern_parts _ Hp) as (Hne & _ & _ & Hl & _).
+  intros H. destruct (sml_pok_parts els H) as (Hp & Hok & _). destruct (ml_pattern_parts eok0 _ Hp) as (Hne & _ & _ & Hl & _).
   split; [intros ->; apply Hne; reflexivity|].
   apply no_final_lf_join; [apply (Forall_impl _ text_ok_nonempty Hok) | apply ml_last_ok_no_final_lf, Hl].
 Qed.
@@ -485,16 +520,16 @@ Definition sml_vlay (els : list pattern_element) (V : bytes) : Prop := ml_value_
 
 Lemma sml_ptext_layout k els : sml_pok els = true -> k <= 1 -> sml_vlay els (sml_ptext k els).
 Proof.
-  intros Hp _. destruct (sml_pok_parts els Hp) as (Hml & _). destruct (ml_pattern_parts _ Hml) as (_ & Hs & _).
+  intros Hp _. destruct (sml_pok_parts els Hp) as (Hml & _). destruct (ml_pattern_parts eok0 _ Hml) as (_ & Hs & _).
   unfold sml_vlay, sml_ptext. set (J := join_elements els) in *. set (B := 4 * S k).
   pose proof (jtext_layout B J false Hs) as HL.
   destruct (starts_on_new_line (Pattern J)) eqn:Est.
   - change (10%N :: sp B ++ jtext B J) with (sp 0 ++ lf ++ [] ++ sp B ++ jtext B J).
-    apply (mvl_block J 0 lf 0 [] B (jtext B J)); [|left; reflexivity | constructor | unfold B; lia | exact HL].
+    apply (mvl_block etext0 J 0 lf 0 [] B (jtext B J)); [|left; reflexivity | constructor | unfold B; lia | exact HL].
     unfold starts_on_new_line in Est. apply andb_prop in Est as [Hd _].
     unfold has_leading_text_dot in Hd. unfold first_byte_ok_for_block. cbn [pattern_elements] in *.
     destruct J as [|[[|b t]|e] r]; try reflexivity. exact Hd.
-  - change (32%N :: jtext B J) with (sp 1 ++ jtext B J). apply (mvl_inline J 1 B (jtext B J)); [unfold B; lia | exact HL].
+  - change (32%N :: jtext B J) with (sp 1 ++ jtext B J). apply (mvl_inline etext0 J 1 B (jtext B J)); [unfold B; lia | exact HL].
 Qed.
 
 (* ---------------------------------------------------------------------------------------------- *)
@@ -503,50 +538,57 @@ Qed.
 (* the re-parsed elements: the same sequence of text bytes and placeables, again one text element per line *)
 Definition rel2 (els'' els : list pattern_element) : Prop := stream els'' = stream els /\ Forall text_ok els''.
 
-Lemma rel2_join els'' els : rel2 els'' els -> Forall text_ok els -> join_elements els'' = join_elements els.
+Lemma split_join_elements els : Forall split_el els -> Forall text_ok els -> join_elements els = unstream (stream els).
 Proof.
-  intros [Hst Hok''] Hok.
-  rewrite (join_unstream els'' (Forall_impl _ text_ok_nonempty Hok'')), (join_unstream els (Forall_impl _ text_ok_nonempty Hok)), Hst.
-  reflexivity.
+  intros Hsp Hok. rewrite <- (join_unstream els (Forall_impl _ text_ok_nonempty Hok)), (split_join_map els Hsp). reflexivity.
+Qed.
+
+Lemma rel2_split els'' els : rel2 els'' els -> sml_pok els = true -> Forall split_el els''.
+Proof.
+  intros [Hst Hok''] Hp. destruct (sml_pok_parts els Hp) as (Hml & _). destruct (ml_pattern_parts eok0 _ Hml) as (_ & Hs & _).
+  apply (split_of_stream els'' (join_elements els) Hs); [rewrite Hst; symmetry; apply stream_join | exact Hok''].
+Qed.
+
+Lemma rel2_join els'' els : rel2 els'' els -> sml_pok els = true -> join_elements els'' = join_elements els.
+Proof.
+  intros Hrel Hp. pose proof (rel2_split els'' els Hrel Hp) as Hsp''. destruct Hrel as [Hst Hok''].
+  destruct (sml_pok_parts els Hp) as (_ & Hok & Hsp).
+  rewrite (split_join_elements els'' Hsp'' Hok''), (split_join_elements els Hsp Hok), Hst. reflexivity.
 Qed.
 
 Lemma rel2_pok els'' els : rel2 els'' els -> sml_pok els = true ->
   sml_pok els'' = true /\ forall k, sml_ptext k els'' = sml_ptext k els.
 Proof.
-  intros Hrel Hp. destruct (sml_pok_parts els Hp) as (Hml & Hok & _). pose proof (rel2_join els'' els Hrel Hok) as EJ.
+  intros Hrel Hp. destruct (sml_pok_parts els Hp) as (Hml & Hok & _). pose proof (rel2_join els'' els Hrel Hp) as EJ.
   split.
   - unfold sml_pok. rewrite EJ, Hml. apply forallb_text_okb. exact (proj2 Hrel).
   - intros k. unfold sml_ptext. rewrite EJ. reflexivity.
 Qed.
 
 Lemma split_join_pattern els : Forall split_el els -> join_pattern (Pattern els) = Pattern (join_elements els).
-Proof.
-  intros Hall. rewrite join_pattern_els. f_equal. f_equal. apply join_els_map_id. intros e He.
-  rewrite Forall_forall in Hall. specialize (Hall _ He). cbn [split_el] in Hall. destruct e as [sel vs | i]; [contradiction|].
-  change (join_expr (Inline i)) with (Inline (join_inline i)). rewrite (simple_inline_join i Hall). reflexivity.
-Qed.
+Proof. intros Hall. rewrite join_pattern_els, (split_join_map els Hall). reflexivity. Qed.
 
 Lemma rel2_join_pattern els'' els : rel2 els'' els -> sml_pok els = true ->
   join_pattern (Pattern els'') = join_pattern (Pattern els).
 Proof.
-  intros Hrel Hp. destruct (rel2_pok els'' els Hrel Hp) as [Hp'' _].
-  destruct (sml_pok_parts els Hp) as (_ & Hok & Hsp). destruct (sml_pok_parts els'' Hp'') as (_ & _ & Hsp'').
-  rewrite (split_join_pattern els'' Hsp''), (split_join_pattern els Hsp), (rel2_join els'' els Hrel Hok). reflexivity.
+  intros Hrel Hp. destruct (sml_pok_parts els Hp) as (_ & Hok & Hsp).
+  rewrite (split_join_pattern els'' (rel2_split els'' els Hrel Hp)), (split_join_pattern els Hsp), (rel2_join els'' els Hrel Hp).
+  reflexivity.
 Qed.
 
 Lemma sml_get_pattern bs els V T used c nx p n :
   sml_pok els = true -> sml_vlay els V -> after_value T used c nx -> at_ bs p (V ++ T) ->
-  length (V ++ T) + 2 * c + 12 <= n ->
+  3 * length (V ++ T) + 12 <= n ->
   exists els', get_pattern bs n p = Ok (Some (Pattern els')) (used + (length V + p)) /\ rel2 els' els.
 Proof.
-  intros Hp HV HT H Hn. destruct (sml_pok_parts els Hp) as (Hml & _).
-  destruct (get_pattern_ml bs (join_elements els) V T used c nx p n Hml HV HT H Hn) as (els' & E & _ & Hok & Hst).
+  intros Hp HV HT H Hn. destruct (sml_pok_parts els Hp) as (Hml & _). destruct (facts_all 0) as (R & J & W & P).
+  destruct (get_pattern_ml eok0 etext0 R J P bs (join_elements els) V T used c nx p n Hml HV HT H Hn) as (els' & E & _ & Hok & Hst).
   exists els'. split; [exact E|]. split; [rewrite Hst; apply stream_join | exact Hok].
 Qed.
 
 Lemma sml_strip els V : sml_pok els = true -> sml_vlay els V ->
   exists k V0, V = sp k ++ V0 /\ sml_vlay els (sp 0 ++ V0) /\ forall T, head_not is_space (V0 ++ T).
-Proof. intros Hp HV. destruct (sml_pok_parts els Hp) as (Hml & _). apply (ml_value_layout_strip _ V Hml HV). Qed.
+Proof. intros Hp HV. destruct (sml_pok_parts els Hp) as (Hml & _). apply (ml_value_layout_strip eok0 etext0 _ V Hml HV). Qed.
 
 Definition sml_resource_text (t : resource) : bytes := g_resource_text sml_ptext t.
 
@@ -574,18 +616,18 @@ Qed.
 (* the fragment contains what the parser returns for every layout of a tree of RoundTripML.ml_resource *)
 Lemma srel_sml_pok els' els : srel els' els -> ml_pattern (Pattern els) = true -> sml_pok els' = true.
 Proof.
-  intros (_ & Hok & Hst) Hp. destruct (ml_pattern_parts els Hp) as (_ & Hs & _).
-  unfold sml_pok.
-  rewrite (join_of_stream els' els false (ml_elements_normal els false Hs) (Forall_impl _ text_ok_nonempty Hok) Hst), Hp.
-  apply forallb_text_okb, Hok.
+  intros (Hj & Hok & Hst) Hp. destruct (ml_pattern_parts eok0 els Hp) as (_ & Hs & _).
+  pose proof (split_of_stream els' els Hs Hst Hok) as Hsp.
+  unfold jrel in Hj. rewrite (split_join_pattern els' Hsp) in Hj. injection Hj as Hj.
+  unfold sml_pok. rewrite Hj, Hp. apply forallb_text_okb, Hok.
 Qed.
 
 Theorem parser_outputs_sml cs t : ml_resource t = true ->
   exists t', parse (render cs t) = Done (t', []) /\ sml_resource t' = true /\ map join_entry t' = t.
 Proof.
-  intros Ht. destruct (parse_render_ml_split cs t Ht) as (t' & E & Hrel). exists t'. split; [exact E|]. split.
-  - rewrite <- ml_resource_g in Ht. unfold sml_resource. clear E. revert Ht.
-    assert (Hattrs : forall a' a, Forall2 (rel_attr srel) a' a -> forallb (g_attribute ml_pok) a = true ->
+  intros Ht. destruct (parse_render_sel_split 0 cs t Ht) as (t' & E & Hrel). exists t'. split; [exact E|]. split.
+  - rewrite <- (ml_resource_g eok0) in Ht. unfold sml_resource. clear E. revert Ht.
+    assert (Hattrs : forall a' a, Forall2 (rel_attr srel) a' a -> forallb (g_attribute (ml_pok eok0)) a = true ->
                                   forallb (g_attribute sml_pok) a' = true).
     { induction 1 as [|x y l l' Hxy Hl IH]; intros Ha; [reflexivity|].
       cbn [forallb] in Ha. apply andb_prop in Ha as [Hy Hl']. cbn [forallb]. rewrite (IH Hl'), andb_true_r.
@@ -613,15 +655,7 @@ Proof.
 Qed.
 
 (* the one-line fragment of RoundTrip.v / SerializerRoundTrip.v is inside *)
-Lemma ml_elements_join els prev : ml_elements els prev = true -> join_elements els = els.
-Proof.
-  intros Hs. pose proof (ml_elements_normal els prev Hs) as Hn.
-  rewrite join_unstream; [apply (unstream_normal els prev Hn)|].
-  clear Hs. revert prev Hn. induction els as [|el r IH]; intros prev Hn; [constructor|].
-  destruct el as [v|e]; cbn [normal_els] in Hn.
-  - destruct Hn as (_ & Hv & Hr). constructor; [destruct v; [congruence | exact Logic.I] | apply (IH true Hr)].
-  - constructor; [exact Logic.I | apply (IH false Hn)].
-Qed.
+
 
 Theorem simple_resource_sml t : simple_resource t = true -> sml_resource t = true.
 Proof.
@@ -629,5 +663,5 @@ Proof.
   apply (g_resource_mono (fun els => simple_pattern (Pattern els)) sml_pok t); [|exact Ht].
   intros els Hp. pose proof (simple_pattern_ml _ Hp) as Hml. destruct (simple_pattern_parts els Hp) as (_ & Hs & _).
   destruct (simple_elements_ml els false Hs) as [Hmle _].
-  unfold sml_pok. rewrite (ml_elements_join els false Hmle), Hml. apply forallb_text_okb, (simple_elements_text_ok els false Hs).
+  unfold sml_pok. rewrite (ml_elements_join eok0 join_fact0 els false Hmle), Hml. apply forallb_text_okb, (simple_elements_text_ok els false Hs).
 Qed.
